@@ -603,8 +603,10 @@ class CircuitGraph(object):
                 if dest_node is None:
                     return path
                 return Path()
+            # Continue along the edge that does not lead back
+            prev_node = edge.from_node
             edge = next_edges[0]
-            if edge.from_node == node:
+            if edge.to_node == prev_node:
                 edge = next_edges[1]
             path.append(edge)
 
